@@ -419,7 +419,8 @@ func CheckC07(r *Report) {
 		_ = doubles.FaultNone
 	}
 	c07Storage(r, add)
-	r.Rule += " || PLUS storage-level corruption: the key rows corrupted in the form the real metastores keep them (every truncation / one-character deletion / structural replacement of the SQL key_record JSON; every missing, null or wrongly typed attribute of the DynamoDB items, v1 and v2 plugins), decrypted by a cold factory and by a warm session"
+	c07Sidecar(r, add)
+	r.Rule += " || PLUS storage-level corruption: the key rows corrupted in the form the real metastores keep them (every truncation / one-character deletion / structural replacement of the SQL key_record JSON; every missing, null or wrongly typed attribute of the DynamoDB items, v1 and v2 plugins), decrypted by a cold factory and by a warm session || PLUS the same \"payload or error, never a panic\" through the sidecar's request mapping: every structurally malformed decrypt record after a successful get-session (with and without session caching)"
 }
 
 func isStructuralRowMutation(n string) bool {
